@@ -1,4 +1,5 @@
 import TinyFlux.Audit.Tool
 import TinyFlux.Props.C13
 import TinyFlux.Props.C13EndToEnd
+import TinyFlux.Props.C13State
 #audit TinyFlux.Props.C13
